@@ -3,6 +3,7 @@ package gse
 import (
 	"fmt"
 	"go/types"
+	"strconv"
 	"strings"
 	"unicode/utf8"
 
@@ -52,6 +53,75 @@ type Map struct {
 	Entries []mapEntry
 	N       int // live entries
 	Frozen  bool
+	idx     map[string]int // concrete keys -> entry index
+	symKeys []int          // entries whose key is not concrete
+}
+
+// hashKey returns a canonical string for fully concrete keys.
+func hashKey(v Value) (string, bool) {
+	switch v := v.(type) {
+	case *Term:
+		if !v.IsConst() {
+			return "", false
+		}
+		if v.Sort == SBool {
+			if v.B {
+				return "T", true
+			}
+			return "F", true
+		}
+		return "i" + strconv.FormatUint(v.I, 16), true
+	case Str:
+		s, ok := v.Concrete()
+		if !ok {
+			return "", false
+		}
+		return "s" + s, true
+	case Ptr:
+		return fmt.Sprintf("p%p", v), true
+	case *Map:
+		return fmt.Sprintf("m%p", v), true
+	case *Chan:
+		return fmt.Sprintf("c%p", v), true
+	case float64:
+		return "f" + strconv.FormatFloat(v, 'g', -1, 64), true
+	case Struct:
+		var sb strings.Builder
+		sb.WriteString("{")
+		for _, e := range v {
+			k, ok := hashKey(e)
+			if !ok {
+				return "", false
+			}
+			sb.WriteString(strconv.Itoa(len(k)))
+			sb.WriteString(":")
+			sb.WriteString(k)
+		}
+		return sb.String(), true
+	case Array:
+		var sb strings.Builder
+		sb.WriteString("[")
+		for _, e := range v {
+			k, ok := hashKey(e)
+			if !ok {
+				return "", false
+			}
+			sb.WriteString(strconv.Itoa(len(k)))
+			sb.WriteString(":")
+			sb.WriteString(k)
+		}
+		return sb.String(), true
+	case Iface:
+		if v.T == nil {
+			return "nil", true
+		}
+		k, ok := hashKey(v.V)
+		if !ok {
+			return "", false
+		}
+		return "I" + v.T.String() + "|" + k, true
+	}
+	return "", false
 }
 
 type mapEntry struct {
